@@ -1247,7 +1247,14 @@ class WebSocketProtocol13(WebSocketProtocol):
             if len(data) >= 2:
                 self.close_code = struct.unpack(">H", data[:2])[0]
             if len(data) > 2:
-                self.close_reason = to_unicode(data[2:])
+                try:
+                    self.close_reason = to_unicode(data[2:])
+                except UnicodeDecodeError:
+                    # A reason that is not UTF-8 is a protocol error like
+                    # any other invalid text. Drop the connection here; the
+                    # frame loop then delivers the close notification.
+                    self._abort()
+                    return None
             # Echo the received close code, if any (RFC 6455 section 5.5.1).
             self.close(self.close_code)
         elif opcode == 0x9:
